@@ -97,6 +97,12 @@ pub struct Layout {
     /// .mamba file, or a file below a linked directory, is a project member like any other
     #[serde(default)]
     pub links: Vec<String>,
+    /// (alias, target): first-level directories of the source tree that hold the same files with
+    /// the same texts; whenever a version has both, `alias` is materialised as a symbolic link
+    /// to `target` — one directory reachable under two names, every file under each of them a
+    /// project member
+    #[serde(default)]
+    pub aliases: Vec<(String, String)>,
 }
 
 #[derive(Clone, Debug, Serialize, Deserialize, PartialEq, Eq)]
@@ -296,6 +302,7 @@ fn norm(b: &[u8]) -> Vec<u8> {
 
 #[derive(Clone, Debug, Default)]
 pub struct Stats {
+    pub alias_directories: u64,
     pub sessions_started: u64,
     pub steps_in_running_session: u64,
     pub cli_bad_stderr: u64,
@@ -363,6 +370,7 @@ impl Stats {
         self.linked_sources += o.linked_sources;
         self.cli_bad_stderr += o.cli_bad_stderr;
         self.sessions_started += o.sessions_started;
+        self.alias_directories += o.alias_directories;
         self.steps_in_running_session += o.steps_in_running_session;
         self.cli_skipped += o.cli_skipped;
         self.reference_runs += o.reference_runs;
@@ -590,6 +598,21 @@ impl HistExec {
                             let ups = "../".repeat(Path::new(l).components().count());
                             std::os::unix::fs::symlink(format!("{ups}lnkstore/{l}"), &p).expect("symlink in the source tree");
                             self.stats.linked_sources += 1;
+                        }
+                    }
+                }
+                if src_dir_name(&self.layout) != "." {
+                    for (a, t) in &self.layout.aliases {
+                        let under = |d: &str| -> BTreeMap<String, String> {
+                            files.iter().chain(bystanders.iter()).filter_map(|f| f.path.strip_prefix(&format!("{d}/")).map(|r| (r.to_string(), f.text.clone()))).collect()
+                        };
+                        let (fa, ft) = (under(a), under(t));
+                        if !fa.is_empty() && fa == ft {
+                            let pa = Path::new(&src).join(a);
+                            if std::fs::remove_dir_all(&pa).is_ok() && std::os::unix::fs::symlink(t, &pa).is_ok() {
+                                self.stats.linked_sources += fa.len() as u64;
+                                self.stats.alias_directories += 1;
+                            }
                         }
                     }
                 }
